@@ -344,4 +344,50 @@ example : shlUint 128 [1, 0] [0, 1] = [0, 0] := by decide +kernel
 example : rotateLeft 65 [1, 1] 64 = [2 ^ 63, 1] := by decide +kernel
 example : arithmeticShr 65 [0, 1] 3 = [2 ^ 61 + 2 ^ 62 + 2 ^ 63, 1] := by decide +kernel
 
+/-- two's-complement reading of a `bits`-wide word. -/
+def sval (bits A : ℕ) : ℤ := if A.testBit (bits - 1) then (A : ℤ) - 2 ^ bits else A
+
+/-- `arithmetic_shr` is floor division by `2^s` of the two's-complement value (for every `s`,
+    including `s ≥ bits`, where the result is `0` or `−1`). -/
+theorem arithmetic_shr_signed (bits : ℕ) (a : List ℕ) (s : ℕ) (ha : Canon bits a) (hpos : 0 < bits) :
+    sval bits (val (arithmeticShr bits a s)) = sval bits (val a) / 2 ^ s := by
+  obtain ⟨c, v, t⟩ := arithmetic_shr_spec bits a s ha
+  have hA := ha.val_lt
+  have htop := t (bits - 1) (by omega)
+  have hmin : min (bits - 1 + s) (bits - 1) = bits - 1 := by omega
+  rw [hmin] at htop
+  unfold sval
+  rw [htop]
+  cases hsign : (val a).testBit (bits - 1)
+  · simp only [Bool.false_eq_true, if_false]
+    rw [hsign] at v
+    simp only [Bool.false_eq_true, if_false, Nat.add_zero] at v
+    rw [v]; push_cast; rfl
+  · simp only [if_true]
+    rw [hsign] at v
+    simp only [if_true] at v
+    rw [v]
+    have hs2 : (2 : ℤ) ^ s > 0 := by positivity
+    by_cases hs : s ≤ bits
+    · have hle : 2 ^ (bits - s) ≤ 2 ^ bits := Nat.pow_le_pow_right (by norm_num) (by omega)
+      have hsplit : (2 : ℤ) ^ bits = 2 ^ (bits - s) * 2 ^ s := by
+        rw [← pow_add]; congr 1; omega
+      have e : ((val a : ℤ) - 2 ^ bits) / 2 ^ s = (val a : ℤ) / 2 ^ s - 2 ^ (bits - s) := by
+        rw [hsplit, Int.sub_mul_ediv_right _ _ (ne_of_gt hs2)]
+      rw [e]
+      push_cast [Nat.cast_sub hle]
+      ring
+    · have hb0 : bits - s = 0 := by omega
+      have hlt : val a < 2 ^ s := lt_of_lt_of_le hA (Nat.pow_le_pow_right (by norm_num) (by omega))
+      rw [hb0, pow_zero, Nat.div_eq_of_lt hlt, Nat.zero_add]
+      have h1 : 1 ≤ 2 ^ bits := Nat.one_le_two_pow
+      push_cast [Nat.cast_sub h1]
+      have hneg : ((val a : ℤ) - 2 ^ bits) / 2 ^ s = -1 := by
+        have hA' : (val a : ℤ) < 2 ^ bits := by exact_mod_cast hA
+        have hlt' : (2 : ℤ) ^ bits ≤ 2 ^ s := by
+          exact_mod_cast Nat.pow_le_pow_right (by norm_num) (by omega : bits ≤ s)
+        have hnn : (0 : ℤ) ≤ val a := by positivity
+        rw [Int.ediv_eq_iff_of_pos hs2]; constructor <;> nlinarith
+      rw [hneg]; ring
+
 end Ruint.C05
